@@ -357,7 +357,17 @@ impl<'a> G<'a> {
             37 => format!("box[{}] {}", self.literal(), self.block()),
             38 => "cal { anything goes }".to_string(),
             39 => format!("defcal {} {} {{ }}", self.name(), self.operands(1)),
-            40 => format!("extern {}(int, float[32]) -> bit;", self.name()),
+            40 => {
+                let n = self.name();
+                match self.r.below(6) {
+                    0 => format!("extern {n} -> int;"),
+                    1 => format!("extern {n}();"),
+                    2 => format!("extern {n}(int);"),
+                    3 => format!("extern {n}(int,) -> int;"),
+                    4 => format!("extern {n};"),
+                    _ => format!("extern {n}(int, float[32]) -> bit;"),
+                }
+            }
             41 => format!("{} {}[{}];", self.r.pick(&["qreg", "creg"]), self.name(), self.r.below(4)),
             42 => self.block(),
             43 => format!("measure {} -> {};", self.operand(), self.name()),
